@@ -51,7 +51,7 @@ type Opts struct {
 	ViewTimeout time.Duration
 	Batch       uint32
 	Clients     int
-	Cmds        int // commands per client
+	Cmds        int           // commands per client
 	Crash       hotstuff.ID   // replica stopped mid-run (0 = none)
 	CrashAfter  int           // ... after this many client commands completed
 	Kauri       bool          // tree-based vote aggregation (comm.Kauri, tree-leader rotation, branch factor 2)
@@ -87,6 +87,11 @@ type node struct {
 	vs      *protocol.ViewStates
 	el      *eventloop.EventLoop
 	stopped atomic.Bool
+	// stoppedAt is the clock value taken after the replica's servers were closed (0 while it runs). The loopback port of a
+	// stopped replica is free again: another process (the checks run many clusters in parallel) may bind it, and this run's
+	// clients, which keep redialling the address, then talk to a replica of somebody else's cluster. Replies attributed to a
+	// replica after that moment are not its replies.
+	stoppedAt atomic.Int64
 	// observations (guarded by Live.mu)
 	commits  []*hotstuff.Block
 	execs    []execRec
@@ -98,17 +103,17 @@ type node struct {
 
 // Live is one running cluster with its monitors.
 type Live struct {
-	O     Opts
-	R     *vbase.Result
-	nodes []*node
-	clock atomic.Int64
-	mu    sync.Mutex
-	bad   atomic.Int64
-	succ  map[hotstuff.ID]map[cmdKey]map[*clientpb.Command]int64 // replica -> command -> client call -> stamp of the success reply
-	log    *vk.SignLog
-	blocks map[hotstuff.Hash]*hotstuff.Block // every proposed block seen by any replica
-	seenAt map[propKey]map[hotstuff.Hash][]hotstuff.ID // (view, proposing replica of the message) -> block hash -> receivers
-	done  atomic.Int64                        // commands completed (quorum of replies)
+	O       Opts
+	R       *vbase.Result
+	nodes   []*node
+	clock   atomic.Int64
+	mu      sync.Mutex
+	bad     atomic.Int64
+	succ    map[hotstuff.ID]map[cmdKey]map[*clientpb.Command]int64 // replica -> command -> client call -> stamp of the success reply
+	log     *vk.SignLog
+	blocks  map[hotstuff.Hash]*hotstuff.Block           // every proposed block seen by any replica
+	seenAt  map[propKey]map[hotstuff.Hash][]hotstuff.ID // (view, proposing replica of the message) -> block hash -> receivers
+	done    atomic.Int64                                // commands completed (quorum of replies)
 	crashed atomic.Int64
 }
 
@@ -331,9 +336,30 @@ func Run(o Opts, r *vbase.Result) {
 	for _, nd := range l.nodes {
 		nd.rep.Start()
 	}
+	var holders []net.Listener
+	var holdMu sync.Mutex
+	defer func() {
+		holdMu.Lock()
+		for _, ln := range holders {
+			_ = ln.Close()
+		}
+		holdMu.Unlock()
+	}()
 	stop := func(nd *node) {
 		if nd.stopped.CompareAndSwap(false, true) {
 			nd.rep.Stop()
+			nd.stoppedAt.Store(l.clock.Add(1))
+			// keep the two ports of the stopped replica occupied until the run is over, so that the peers and clients that keep
+			// redialling them do not reach a replica of another cluster running in a parallel process
+			for _, addr := range []string{nd.replAddr, nd.cliAddr} {
+				if ln, err := net.Listen("tcp", addr); err == nil {
+					holdMu.Lock()
+					holders = append(holders, ln)
+					holdMu.Unlock()
+				} else {
+					r.Obs("live_ports_of_stopped_replicas_not_held", 1)
+				}
+			}
 		}
 	}
 	// clients
@@ -513,6 +539,20 @@ func (l *Live) judge(capHit bool) {
 		// client boundary
 		for k, calls := range l.succ[nd.id] {
 			first := int64(1) << 62
+			if sa := nd.stoppedAt.Load(); sa != 0 {
+				kept := map[*clientpb.Command]int64{}
+				for in, st := range calls {
+					if st < sa {
+						kept[in] = st
+					} else {
+						r.Obs("live_replies_attributed_to_a_replica_after_it_was_stopped", 1)
+					}
+				}
+				calls = kept
+				if len(calls) == 0 {
+					continue
+				}
+			}
 			for _, st := range calls {
 				if st < first {
 					first = st
@@ -523,7 +563,21 @@ func (l *Live) judge(capHit bool) {
 			}
 			at, ok := executedAt[k]
 			if !ok {
-				l.violate("C06", "success-not-executed", "r%d answered command (%d,%d) with success but never executed it", nd.id, k.Client, k.Seq)
+				inEvents, higherBefore := 0, false
+				var maxBefore uint64
+				for _, e := range nd.execs {
+					for _, x := range e.cmds {
+						if x == k {
+							inEvents++
+						}
+						if x.Client == k.Client && inEvents == 0 && x.Seq > maxBefore {
+							maxBefore = x.Seq
+						}
+					}
+				}
+				higherBefore = maxBefore >= k.Seq
+				l.violate("C06", "success-not-executed", "r%d answered command (%d,%d) with success but never executed it (the command is in %d of its %d execute events; highest sequence number of that client executed before it: %d, skipped as a duplicate by the reference: %v; replica stopped early: %v)",
+					nd.id, k.Client, k.Seq, inEvents, len(nd.execs), maxBefore, higherBefore && inEvents > 0, nd.stopped.Load())
 				continue
 			}
 			if first < at {
